@@ -92,7 +92,9 @@ func NewSuRecord() *SuRecord {
 // WARNING: it does not copy the data, the original object should be discarded
 func SuRecordFromObject(ob *SuObject) *SuRecord {
 	return &SuRecord{
-		ob: SuObject{list: ob.list, named: ob.named, defval: EmptyStr}}
+		ob: SuObject{list: ob.list, named: ob.named, defval: EmptyStr,
+			// the argument may be a lazy (copy-on-write) copy: keep its counter
+			copyCount: ob.copyCount}}
 }
 
 func SuRecordFromRow(row Row, hdr *Header, table string, tran *SuTran) *SuRecord {
